@@ -52,7 +52,7 @@ func init() {
 		}
 		var k cose.Key
 		var err error
-		try("unmarshal", func() { err = k.UnmarshalCBOR(b) })
+		try("unmarshal", func() { err = viaRecv(b, k.UnmarshalCBOR) })
 		ev["acc"] = err == nil && len(panics) == 0
 		ev["reenc"], ev["redec"], ev["re"], ev["re2"] = "n/a", "n/a", []int{}, []int{}
 		ev["signer"], ev["verifier"], ev["priv"], ev["pub"], ev["signeralg"], ev["verifieralg"], ev["sigok"] = "n/a", "n/a", "n/a", "n/a", 0, 0, "n/a"
@@ -65,7 +65,7 @@ func init() {
 				if e2 == nil {
 					ev["re"] = ints(re)
 					var k2 cose.Key
-					e3 := k2.UnmarshalCBOR(re)
+					e3 := viaRecv(re, k2.UnmarshalCBOR)
 					ev["redec"] = okErr(e3)
 					if e3 == nil {
 						re2, e3 = k2.MarshalCBOR()
@@ -112,15 +112,34 @@ func init() {
 		}
 		// an earlier key decoded into a variable and copied by value stays what it was when the variable is decoded into again, and the
 		// verdict on the bytes does not depend on what the destination held before
-		ev["priorstable"], ev["usedacc"], ev["usedre"] = true, ev["acc"], ev["re"]
+		ev["priorstable"], ev["usedacc"], ev["usedre"], ev["priorok"] = true, ev["acc"], ev["re"], true
+		// ... nor on a decode that was refused half-way just before (a private key with its key type given twice)
+		ev["afterbadacc"], ev["afterbadre"] = ev["acc"], ev["re"]
+		try("after-refused-decode", func() {
+			var kb cose.Key
+			bad := append(append([]byte{}, priorKeyBytes()...), 0x01, 0x02) // one more pair: kty again
+			bad[0]++                                                        // (map of n+1 pairs)
+			_ = viaRecv(bad, kb.UnmarshalCBOR)
+			var kf cose.Key
+			e3 := viaRecv(b, kf.UnmarshalCBOR)
+			ev["afterbadacc"] = e3 == nil
+			if e3 == nil {
+				if re, e4 := kf.MarshalCBOR(); e4 == nil {
+					ev["afterbadre"] = ints(re)
+				} else {
+					ev["afterbadre"] = []int{}
+				}
+			}
+		})
 		try("used-destination", func() {
 			var kv cose.Key
-			if e2 := kv.UnmarshalCBOR(priorKeyBytes()); e2 != nil {
-				fatal("keydec: prior key does not decode: %v", e2)
+			if e2 := viaRecv(priorKeyBytes(), kv.UnmarshalCBOR); e2 != nil {
+				ev["priorok"] = false // a key the library itself serialised: the judge reports its refusal
+				return
 			}
 			snap := kv
 			before, _ := json.Marshal(keyProj(&snap))
-			e3 := kv.UnmarshalCBOR(b)
+			e3 := viaRecv(b, kv.UnmarshalCBOR)
 			after, _ := json.Marshal(keyProj(&snap))
 			ev["priorstable"] = bytes.Equal(before, after)
 			ev["usedacc"] = e3 == nil
